@@ -41,27 +41,27 @@ type triFacts struct {
 }
 
 type rndObs struct {
-	Ev    string   `json:"ev"`
-	Rnd   int      `json:"rnd"`
-	Seed  int64    `json:"seed"`
-	Fam   string   `json:"fam"`
-	Param string   `json:"param"`
-	N     int      `json:"n"`
-	H     int      `json:"h"`    // strict vertices of the convex hull (exact)
-	HCol  int      `json:"hcol"` // further points exactly on the hull boundary
-	DupPt int      `json:"duppt"`
-	MinSep   int   `json:"minsep"`   // smallest squared distance of two input points / 1e-12 (saturating at 1e9)
-	MissMinR int   `json:"missminr"` // min over triangles of slow \\ fast of circumradius / extent of the set (saturating at 1e9)
-	Ferr  string   `json:"ferr"`
-	Serr  string   `json:"serr"`
-	F     triFacts `json:"f"`
-	S     triFacts `json:"s"`
-	Dfs   int      `json:"dfs"`  // |fast \ slow| as canonical triples
-	Dsf   int      `json:"dsf"`  // |slow \ fast|
-	Fseq  bool     `json:"fseq"` // REAL TriangleISet.Equals(fast, slow)
+	Ev       string   `json:"ev"`
+	Rnd      int      `json:"rnd"`
+	Seed     int64    `json:"seed"`
+	Fam      string   `json:"fam"`
+	Param    string   `json:"param"`
+	N        int      `json:"n"`
+	H        int      `json:"h"`    // strict vertices of the convex hull (exact)
+	HCol     int      `json:"hcol"` // further points exactly on the hull boundary
+	DupPt    int      `json:"duppt"`
+	MinSep   int      `json:"minsep"`   // smallest squared distance of two input points / 1e-12 (saturating at 1e9)
+	MissMinR int      `json:"missminr"` // min over triangles of slow \\ fast of circumradius / extent of the set (saturating at 1e9)
+	Ferr     string   `json:"ferr"`
+	Serr     string   `json:"serr"`
+	F        triFacts `json:"f"`
+	S        triFacts `json:"s"`
+	Dfs      int      `json:"dfs"`  // |fast \ slow| as canonical triples
+	Dsf      int      `json:"dsf"`  // |slow \ fast|
+	Fseq     bool     `json:"fseq"` // REAL TriangleISet.Equals(fast, slow)
 	// REAL TriangleISet.Equals(fast, copy) for seeded copies of the fast result
 	RotK      int `json:"rotk"`
-	RotFalse  int `json:"rotfalse"`  // rotation-only copies reported different
+	RotFalse  int `json:"rotfalse"` // rotation-only copies reported different
 	PermK     int `json:"permk"`
 	PermFalse int `json:"permfalse"` // permuted + rotated copies reported different
 	DiffK     int `json:"diffk"`
